@@ -306,7 +306,7 @@ class EdgeIDObj(IEdgeID):
     def __eq__(self, other):
         if isinstance(other, IEdgeID):
             # Edge is equal if they share the same qubit identifiers, order does not matter
-            return other.contains(self.qubit_id0) and other.contains(self.qubit_id1)
+            return other.contains(self.qubit_id0) and other.contains(self.qubit_id1) and all(self.contains(qubit_id) for qubit_id in other.qubit_ids)
         # raise NotImplementedError('EdgeIDObj equality check to anything other than IEdgeID interface is not implemented.')
         return False
 
